@@ -313,8 +313,18 @@ def hir_arms(fn):
     return None
 
 
-def arm_summary(fn, edge):
-    blocks = [b for b in sorted(fn.live_blocks()) if fn.edge_dominates(edge, b)]
+def arm_region(fn, edge, all_edges):
+    """blocks that belong to the match arm entered through `edge`: reachable from its target, minus what every arm reaches
+    (the code after the match).  Arms merged with `|` share their blocks."""
+    common = None
+    for e in set(all_edges):
+        r = fn.reachable(e[1])
+        common = r if common is None else (common & r)
+    return sorted(fn.reachable(edge[1]) - (common or set()))
+
+
+def arm_summary(fn, edge, all_edges=None, crate=None, depth=0):
+    blocks = arm_region(fn, edge, all_edges) if all_edges else [b for b in sorted(fn.live_blocks()) if fn.edge_dominates(edge, b)]
     calls = []
     fnrefs = set()
     fields = set()
@@ -335,8 +345,12 @@ def arm_summary(fn, edge):
             if rhs['rv'] == 'bin' and not st.get('macro') and rhs['bop'] not in ('Eq', 'BitAnd', 'Sub', 'Ne'):
                 binops.add(rhs['bop'])
             if st['lhs']['local'] == 0 and not st['lhs']['proj']:
-                rets.append(desc(fn, dict(op='copy', place=dict(local=0, proj=[]))) if False else stmt_value(fn, st))
+                rets.append(stmt_value(fn, st))
         t = blk['term']
+        if t['t'] == 'switch':
+            p = op_place(t['discr'])
+            if p:
+                fields.update(fields_of(p))
         if t['t'] == 'call':
             nm = fn.callee_name(t)
             calls.append((nm, t))
@@ -345,7 +359,38 @@ def arm_summary(fn, edge):
                     fnrefs.add(a['fn'])
             if t['dest']['local'] == 0 and not t['dest']['proj']:
                 rets.append('call:' + short(nm))
+            # one level of private helpers: what they read and call counts for the arm
+            g = crate.fns.get(nm) if crate is not None else None
+            if g is not None and g.name != fn.name and depth < 1 and g.vis != 'Public':
+                sub = whole_summary(g, crate)
+                calls += sub['calls']
+                fnrefs |= sub['fnrefs']
+                fields |= sub['fields']
     return dict(blocks=blocks, calls=calls, fnrefs=fnrefs, fields=fields, binops=binops, rets=rets)
+
+
+def whole_summary(g, crate):
+    calls, fnrefs, fields = [], set(), set()
+    for f in crate.body_family(g):
+        for b in sorted(f.live_blocks()):
+            blk = f.blocks[b]
+            for st in blk['stmts']:
+                rhs = st['rhs']
+                for key in ('a', 'b'):
+                    o = rhs.get(key)
+                    if o and op_place(o):
+                        fields.update(fields_of(op_place(o)))
+                if 'place' in rhs:
+                    fields.update(fields_of(rhs['place']))
+            t = blk['term']
+            if t['t'] == 'switch' and op_place(t['discr']):
+                fields.update(fields_of(op_place(t['discr'])))
+            if t['t'] == 'call':
+                calls.append((f.callee_name(t), t))
+                for a in t['args']:
+                    if a.get('op') == 'const' and a.get('fn'):
+                        fnrefs.add(a['fn'])
+    return dict(calls=calls, fnrefs=fnrefs, fields=fields)
 
 
 def stmt_value(fn, st):
@@ -371,7 +416,7 @@ def rule_complexity(rep, crate):
         if v not in arms:
             rep.viol(rid, 'complexity:arm-missing:%s' % v, 'no arm for HirKind::%s' % v, loc(fn))
             continue
-        a = arm_summary(fn, arms[v])
+        a = arm_summary(fn, arms[v], list(arms.values()), crate)
         names = [short(n) for n, _t in a['calls']]
         rec = [t for n, t in a['calls'] if n == me]
         rep.inst(rid, 'complexity:' + v, detail=dict(returns=a['rets'], calls=sorted(set(names)), fnrefs=sorted(a['fnrefs']), binops=sorted(a['binops'])))
@@ -451,7 +496,7 @@ def rule_greedy_recursion(rep, crate):
         if v not in arms:
             rep.viol(rid, 'greedy:arm-missing:%s' % v, 'no arm for HirKind::%s' % v, loc(fn))
             continue
-        a = arm_summary(fn, arms[v])
+        a = arm_summary(fn, arms[v], list(arms.values()), crate)
         rec = [t for n, t in a['calls'] if n == me]
         names = [short(n) for n, _t in a['calls']]
         rep.inst(rid, 'has_greedy_all:' + v, detail=dict(calls=sorted(set(names)), fnrefs=sorted(a['fnrefs']), fields=sorted(a['fields'])))
@@ -469,9 +514,9 @@ def rule_greedy_recursion(rep, crate):
                 rep.viol(rid, 'greedy:dot-test', 'the Repetition arm does not compare the sub-expression with the dot expressions', loc(fn))
     for v in ('Empty', 'Literal', 'Class', 'Look'):
         if v in arms:
-            a = arm_summary(fn, arms[v])
+            a = arm_summary(fn, arms[v], list(arms.values()), crate)
             rep.inst(rid, 'has_greedy_all:' + v, detail=a['rets'], trivial=True)
-            if a['rets'] != ['const:0']:
+            if set(a['rets']) != {'const:0'}:
                 rep.viol(rid, 'greedy:leaf:%s' % v, 'the HirKind::%s arm returns %s' % (v, a['rets']), loc(fn))
     # greedy_dotall_check: error unless allow_greedy
     g = crate.fns.get('greedy_dotall_check')
@@ -1193,7 +1238,11 @@ def rule_nfa_mode(rep, crate):
         for b, t in find_calls(gen, r'graph::Graph::new$'):
             cd = desc(gen, t['args'][1])
             rep.inst(rid, 'generate:config', detail=cd[:200])
-            if not re.fullmatch(r'agg:graph::Config\{utf8_mode=call:std::option::Option::<T>::unwrap_or\(call:std::option::Option::<T>::map\(call:std::option::Option::<T>::as_ref\(call:<parser::Parser as std::default::Default>::default\.utf8_mode\),fn:syn::LitBool::value\),const:1\)\}', cd):
+            sl = gen.slice(t['args'][1])
+            okc = cd.startswith('agg:graph::Config{utf8_mode=') and sl.has_field_path('utf8_mode') and 'syn::LitBool::value' in (sl.fnrefs | sl.calls) \
+                and 1 in sl.int_consts() and 0 not in sl.int_consts() and not sl.binops and not sl.unops \
+                and all(re.search(r'Option::<T>::(as_ref|map|unwrap_or|map_or|copied|cloned)$|LitBool::value$|Default>::default$', c) for c in sl.calls)
+            if not okc:
                 rep.viol(rid, 'config-utf8', 'graph::Config is built as %s, expected utf8_mode = parser.utf8_mode.map(value).unwrap_or(true)' % cd[:200], loc(gen, t['line']))
 
 
